@@ -13,6 +13,7 @@ import (
 	"strconv"
 	"strings"
 	"time"
+	"unicode/utf8"
 
 	"github.com/spf13/cobra"
 	"github.com/spf13/viper"
@@ -573,17 +574,45 @@ func (r *runner) doFlagReach(o hx.Op) {
 	}
 }
 
-func (r *runner) doSave(o hx.Op, exotic bool) {
+// yamlCause names the class of string values the YAML writer (goccy) / reader (yaml.v3) pair is
+// known not to preserve that `w` belongs to ("" = none): the cause part of a finding's signature.
+// (The outcome itself is predicted by the Lean model, Model/ConfigYaml.lean, and compared on every op.)
+func yamlCause(w string) string {
+	p := w
+	if !strings.HasPrefix(w, "_") {
+		p = strings.ReplaceAll(w, "_", "")
+	}
+	switch {
+	case strings.Contains(w, "\r"):
+		return "carriage-return-rewritten"
+	case w == "\n":
+		return "lone-newline-lost"
+	case w == "?" || strings.HasPrefix(w, "? "):
+		return "file-unparsable-silently-ignored"
+	case hardControlRe.MatchString(w):
+		return "control-character-file-unparsable-silently-ignored"
+	case infNanRe.MatchString(w) || expFloatRe.MatchString(p):
+		return "numeric-looking-string-retyped"
+	case radixRe.MatchString(p) || leadZeroRe.MatchString(p):
+		return "radix-or-leading-zero-string-retyped"
+	case dateLikeRe.MatchString(w):
+		return "date-like-string-refused"
+	}
+	return ""
+}
+
+var (
+	hardControlRe = regexp.MustCompile("[\\x00-\\x08\\x0b\\x0c\\x0e-\\x1f\\x7f\u0080-\u0084\u0086-\u009f\ufffe\uffff]")
+	radixRe       = regexp.MustCompile(`^([-+]?0X[0-9a-fA-F]+|[-+]?0O[0-7]+|[-+]?0B[01]+|0o[-+][0-7]+|0b[-+][01]+)$`)
+	leadZeroRe    = regexp.MustCompile(`^[-+]?0[0-9]*[89][0-9]*$`)
+	dateLikeRe    = regexp.MustCompile(`^[0-9]{4}-[0-9]{1,2}-[0-9]{1,2}$`)
+)
+
+func (r *runner) doSave(o hx.Op) {
 	set, ok := parsePairs(o.Str("set"))
 	if !ok {
 		r.c.Emit("bad-op")
 		return
-	}
-	if exotic {
-		// not part of the load history, outcome not predicted by the model
-		saved := DeepCopy(config.DefaultConfig)
-		defer restoreFrom(saved)
-		RestoreDefaults()
 	}
 	cfg := DeepCopy(pristine)
 	for _, p := range set {
@@ -666,12 +695,15 @@ func (r *runner) doSave(o hx.Op, exotic bool) {
 		return
 	}
 	if err != nil {
-		r.c.Report("C18/saveload/load-error", "a configuration written by SaveAsYaml does not load: "+err.Error())
-		if exotic {
-			r.c.Emit("checked")
-		} else {
-			r.c.Emit("err:load")
+		sig := "C18/saveload/load-error"
+		for i, f := range r.fs {
+			if isOption(f) && f.Kind == "string" && yamlCause(want[i]) == "date-like-string-refused" && strings.Contains(err.Error(), "time.Time") {
+				sig = "C18/saveload/date-like-string-refused"
+			}
 		}
+		r.c.Report(sig, "a configuration written by SaveAsYaml does not load: "+err.Error())
+		r.c.Hit("save:load-error")
+		r.c.Emit("err:load")
 		return
 	}
 	got := Snapshot(&back, r.fs)
@@ -683,36 +715,34 @@ func (r *runner) doSave(o hx.Op, exotic bool) {
 	pv := viper.New()
 	pv.SetConfigFile(cfg.ConfigPath())
 	parseErr := pv.ReadInConfig()
-	// the one known cause of an unparsable file: a string option equal to "?" / starting with "? "
-	qmark := false
+	// the known causes of an unparsable file: a string option that is "?" / starts with "? ", or
+	// holds a control character
+	breaker := ""
 	for i, f := range r.fs {
-		if isOption(f) && f.Kind == "string" && (want[i] == "?" || strings.HasPrefix(want[i], "? ")) {
-			qmark = true
+		if c := yamlCause(want[i]); isOption(f) && f.Kind == "string" && strings.HasSuffix(c, "file-unparsable-silently-ignored") && breaker == "" {
+			breaker = c
 		}
 	}
 	for i, f := range r.fs {
 		if isOption(f) && got[i] != want[i] && !histDiff[i] {
 			w, g := want[i], got[i]
+			cause := ""
+			if f.Kind == "string" {
+				cause = yamlCause(w)
+			}
 			switch {
-			case parseErr != nil && !qmark:
+			case parseErr != nil && breaker == "":
 				r.c.Report("C18/saveload/file-unparsable", fmt.Sprintf("SaveAsYaml left a file viper cannot parse (%v) although no option holds a value known to be written wrongly; saved %s=%q, loaded %q", parseErr, f.Go, w, g))
 			case parseErr != nil:
-				r.c.Report("C18/saveload/file-unparsable-silently-ignored", fmt.Sprintf("SaveAsYaml wrote a file viper cannot parse (%v); Load ignores the error and silently returns the defaults (saved %s=%q, loaded %q)", parseErr, f.Go, w, g))
-			case f.Kind == "string" && strings.Contains(w, "\r"):
-				r.c.Report("C18/saveload/carriage-return-rewritten", fmt.Sprintf("saved %s=%q, loaded %q", f.Go, w, g))
-			case f.Kind == "string" && (expFloatRe.MatchString(w) || infNanRe.MatchString(w)):
-				r.c.Report("C18/saveload/numeric-looking-string-retyped", fmt.Sprintf("SaveAsYaml writes the string unquoted, Load reads a number: saved %s=%q, loaded %q", f.Go, w, g))
+				r.c.Report("C18/saveload/"+breaker, fmt.Sprintf("SaveAsYaml wrote a file viper cannot parse (%v); Load ignores the error and silently returns the defaults (saved %s=%q, loaded %q)", parseErr, f.Go, w, g))
+			case cause != "" && !strings.HasSuffix(cause, "silently-ignored") && cause != "date-like-string-refused":
+				r.c.Report("C18/saveload/"+cause, fmt.Sprintf("SaveAsYaml writes the string bare, Load reads something else: saved %s=%q, loaded %q", f.Go, w, g))
 			case g == r.prist[i] || g == before[i]:
 				r.c.Report("C18/saveload/lost/"+f.Go, fmt.Sprintf("saved %s=%q, loaded %q", f.Go, w, g))
 			default:
 				r.c.Report("C18/saveload/value/"+f.Go, fmt.Sprintf("saved %s=%q, loaded %q", f.Go, w, g))
 			}
 		}
-	}
-	if exotic {
-		r.c.Hit("savex")
-		r.c.Emit("checked")
-		return
 	}
 	r.checkDefaultsUntouched(before)
 	r.c.Hit("save")
@@ -763,7 +793,7 @@ type gslot struct {
 	saved  bool
 	g      genesis.Genesis
 	cond   string // "" = the last genesis saved here is valid, else the first condition Validate must name
-	off    int    // zone offset (minutes) of the saved time
+	off    int    // zone offset (SECONDS) of the saved time
 	maxLen int64  // size of the longest file Save ever left at this path
 	writes int
 }
@@ -844,15 +874,23 @@ func (r *runner) loadBack(s *gslot, again bool) string {
 		return "err:" + cl
 	}
 	if cond != "" {
-		r.c.Report("C18/genesis/invalid-loaded/"+cond, fmt.Sprintf("LoadGenesis accepts a genesis file with invalid %s", cond))
+		if cond == "da_start_time" && s.off%60 != 0 {
+			r.c.Report("C18/genesis/invalid-loaded/da_start_time-after-zone-offset-seconds-dropped", fmt.Sprintf("the zero time in a zone whose offset has seconds (%ds) is written with the offset cut to minutes: the file denotes another instant and LoadGenesis accepts it", s.off))
+		} else {
+			r.c.Report("C18/genesis/invalid-loaded/"+cond, fmt.Sprintf("LoadGenesis accepts a genesis file with invalid %s", cond))
+		}
 	}
 	_, boff := back.GenesisDAStartTime.Zone()
 	switch {
+	case back.ChainID != g.ChainID && !utf8.ValidString(g.ChainID):
+		r.c.Report("C18/genesis/roundtrip/chain-id-invalid-utf8-replaced", fmt.Sprintf("a chain id that is not valid UTF-8 comes back with U+FFFD in place of the offending bytes: %q -> %q", g.ChainID, back.ChainID))
 	case back.ChainID != g.ChainID:
 		r.c.Report("C18/genesis/roundtrip/chain_id", fmt.Sprintf("%q -> %q", g.ChainID, back.ChainID))
 	case back.InitialHeight != g.InitialHeight:
 		r.c.Report("C18/genesis/roundtrip/initial_height", fmt.Sprintf("%d -> %d", g.InitialHeight, back.InitialHeight))
-	case !back.GenesisDAStartTime.Equal(g.GenesisDAStartTime) || boff != s.off*60:
+	case (!back.GenesisDAStartTime.Equal(g.GenesisDAStartTime) || boff != s.off) && s.off%60 != 0:
+		r.c.Report("C18/genesis/roundtrip/zone-offset-seconds-dropped", fmt.Sprintf("a time in a zone whose offset has seconds (%ds) is written with the offset cut to minutes and the wall clock kept: the instant shifts: %v -> %v", s.off, g.GenesisDAStartTime, back.GenesisDAStartTime))
+	case !back.GenesisDAStartTime.Equal(g.GenesisDAStartTime) || boff != s.off:
 		r.c.Report("C18/genesis/roundtrip/da_start_time", fmt.Sprintf("%v -> %v", g.GenesisDAStartTime, back.GenesisDAStartTime))
 	case !bytes.Equal(back.ProposerAddress, g.ProposerAddress) || (back.ProposerAddress == nil) != (g.ProposerAddress == nil):
 		r.c.Report("C18/genesis/roundtrip/proposer_address", fmt.Sprintf("%x -> %x", g.ProposerAddress, back.ProposerAddress))
@@ -862,7 +900,7 @@ func (r *runner) loadBack(s *gslot, again bool) string {
 	if back.ProposerAddress != nil {
 		pas = hx.Hex(back.ProposerAddress)
 	}
-	return fmt.Sprintf("ok cid=%s ih=%d t=%d.%d off=%d pa=%s", hexS(back.ChainID), back.InitialHeight, bt.Unix(), bt.Nanosecond(), boff/60, pas)
+	return fmt.Sprintf("ok cid=%s ih=%d t=%d.%d offs=%d pa=%s", hexS(back.ChainID), back.InitialHeight, bt.Unix(), bt.Nanosecond(), boff, pas)
 }
 
 // slotName: "" = a fresh path for this op only; ok=false = malformed
@@ -906,11 +944,17 @@ func (r *runner) doGenesis(o hx.Op) {
 		okPA, pa = e == nil && o.Has("pa"), b
 	}
 	at, okAt := slotName(o)
-	if err1 != nil || !o.Has("cid") || !okIH || err2 != nil || !okT || !okPA || !okAt {
+	offs, okOffs := int64(0), true // extra SECONDS of zone offset
+	if o.Has("offs") {
+		v, e := strconv.ParseInt(o.Str("offs"), 10, 64)
+		offs, okOffs = v, e == nil
+	}
+	if err1 != nil || !o.Has("cid") || !okIH || err2 != nil || !okT || !okPA || !okAt || !okOffs {
 		r.c.Emit("bad-op")
 		return
 	}
-	t = t.In(time.FixedZone("op", int(off)*60))
+	offSec := int(off)*60 + int(offs)
+	t = t.In(time.FixedZone("op", offSec))
 	g := genesis.NewGenesis(string(cid), ih, t, pa)
 	cond := invalidCond(string(cid), ih, t, pa)
 	val := "ok"
@@ -932,12 +976,26 @@ func (r *runner) doGenesis(o hx.Op) {
 	} else {
 		s = r.slot(at)
 	}
-	ld := ""
+	ld, file := "", "-"
 	if err := g.Save(s.path); err != nil {
-		r.c.Report("C18/genesis/save-error", err.Error())
+		// encoding/json refuses what RFC 3339 cannot print: an honest refusal, nothing is written
+		switch {
+		case strings.Contains(err.Error(), "year outside of range"):
+			file = "err:year"
+			r.c.Hit("genesis:save-refused:year")
+		case strings.Contains(err.Error(), "timezone hour outside of range"):
+			file = "err:zonehour"
+			r.c.Hit("genesis:save-refused:zonehour")
+		default:
+			file = "err:other"
+			r.c.Report("C18/genesis/save-error", err.Error())
+		}
 		ld = "err:save"
 	} else {
-		s.saved, s.g, s.cond, s.off = true, g, cond, int(off)
+		if raw, e := os.ReadFile(s.path); e == nil {
+			file = hx.Hex(raw)
+		}
+		s.saved, s.g, s.cond, s.off = true, g, cond, offSec
 		s.writes++
 		if st, e := os.Stat(s.path); e == nil && st.Size() > s.maxLen {
 			s.maxLen = st.Size()
@@ -948,7 +1006,7 @@ func (r *runner) doGenesis(o hx.Op) {
 		ld = r.loadBack(s, false)
 	}
 	r.c.Hit("genesis:" + val)
-	r.c.Emit("val=%s load=%s", val, ld)
+	r.c.Emit("val=%s file=%s load=%s", val, file, ld)
 }
 
 // doGLoad: load what the scenario's path `at=<n>` holds now (nothing was ever saved there: refused).
@@ -999,10 +1057,8 @@ func Run(c *hx.Ctx) {
 				r.doLoadX(o)
 			case "flagreach":
 				r.doFlagReach(o)
-			case "save":
-				r.doSave(o, false)
-			case "savex":
-				r.doSave(o, true)
+			case "save", "savex": // savex: old name for saves of values the YAML pair does not preserve
+				r.doSave(o)
 			case "genesis":
 				r.doGenesis(o)
 			case "gload":
